@@ -184,3 +184,53 @@ Definition spec_nlyearday_date (y n : Z) : option (Z * Z * Z) :=
   if (1 <=? n) && (n <=? 365) then
     let m := month_of_yday 2001 n in Some (y, m, n - dbm 2001 m)
   else None.
+
+(* ---------------------------------------------------------------- C03 from raw keyword values *)
+(* The documented result computed from field values that need NOT be normalised (the raw keyword
+   arguments of the constructor, weeks already folded into days): years/months count as one number
+   of months, the remaining relative fields as one number of microseconds; the delta "carries time
+   information" when that duration is not a whole number of days or an absolute time field is
+   given.  (For a normalised delta this coincides with spec_add: theorem spec_add_raw_norm.) *)
+Definition sub_day_us (r : relf) : Z :=
+  f_hours r * 3600000000 + f_minutes r * 60000000 + f_seconds r * us_sec + f_us r.
+
+Definition carries_time_total (d : rd) : bool :=
+  let a := ab d in
+  negb (sub_day_us (rel d) mod us_day =? 0)
+  || negb (match a_hour a, a_minute a, a_second a, a_us a with
+           | None, None, None, None => true | _, _, _, _ => false end).
+
+Definition spec_add_raw (d : rd) (o : pydt) : option pydt :=
+  let o := if carries_time_total d then promote o else o in
+  let r := rel d in let a := ab d in
+  let '(oy, om, od) := match o with PD y m dd => (y, m, dd) | PDT y m dd _ _ _ _ => (y, m, dd) end in
+  let y0 := oget (a_year a) oy in
+  let m0 := oget (a_month a) om in
+  let d0 := oget (a_day a) od in
+  let t := 12 * y0 + (m0 - 1) + 12 * f_years r + f_months r in
+  let y1 := t / 12 in
+  let m1 := t mod 12 + 1 in
+  let d1 := Z.min d0 (dim y1 m1) in
+  let base :=
+    match o with
+    | PD _ _ _ => PD y1 m1 d1
+    | PDT _ _ _ hh mi ss us =>
+        PDT y1 m1 d1 (oget (a_hour a) hh) (oget (a_minute a) mi) (oget (a_second a) ss) (oget (a_us a) us)
+    end in
+  if negb (valid_dt base) then None
+  else
+    let leap := if (2 <? m1) && is_leap y1 then leapdays d else 0 in
+    let total := (f_days r + leap) * us_day + sub_day_us r in
+    let dur := match o with PD _ _ _ => total / us_day | PDT _ _ _ _ _ _ _ => total end in
+    match at_lin base (lin base + dur) with
+    | None => None
+    | Some ret =>
+        match wd d with
+        | None => Some ret
+        | Some (w, n) =>
+            match nth_weekday (ord_of ret) w (eff_n n) with
+            | None => None
+            | Some target => at_lin ret (lin ret + (target - ord_of ret) * day_unit ret)
+            end
+        end
+    end.
